@@ -49,5 +49,47 @@ theorem mem_filterSnap {ft fc : Option Nat} {incl : Bool} {snap : List TStat} {t
     obtain ⟨c, hc, rfl⟩ := hc'
     exact ⟨c, e4 c hc, rfl, rfl, rfl, rfl⟩
 
+/-- the converse (round 9, audit B14): a topic of the snapshot that passes the filters is kept, with every channel
+that passes the channel filter -/
+theorem filterSnap_keeps {ft fc : Option Nat} {incl : Bool} {snap : List TStat} {t : TStat} (ht : t ∈ snap)
+    (hft : ft = none ∨ ft = some t.tid) (hfc : ∀ c, fc = some c → ∃ x ∈ t.chans, x.cid = c) :
+    ∃ t' ∈ filterSnap ft fc incl snap, t'.tid = t.tid ∧ t'.nums = t.nums ∧ t'.bytes = t.bytes ∧
+      ∀ c ∈ t.chans, (fc = none ∨ fc = some c.cid) →
+        ∃ c' ∈ t'.chans, c'.cid = c.cid ∧ c'.nums = c.nums ∧ c'.nclients = c.nclients ∧
+          c'.clients = (if incl then c.clients else []) := by
+  unfold filterSnap
+  have h1 : t ∈ (match ft with | none => snap | some x => snap.filter (fun y => y.tid == x)) := by
+    rcases hft with h | h
+    · rw [h]; exact ht
+    · rw [h]; exact List.mem_filter.2 ⟨ht, by simp⟩
+  have h2 : ∃ x ∈ (match fc with
+      | none => (match ft with | none => snap | some t => snap.filter (fun x => x.tid == t))
+      | some c => (match ft with | none => snap | some t => snap.filter (fun x => x.tid == t)).filterMap (fun (t : TStat) =>
+          if t.chans.any (fun x => x.cid == c) then some { t with chans := t.chans.filter (fun x => x.cid == c) } else none)),
+      x.tid = t.tid ∧ x.nums = t.nums ∧ x.bytes = t.bytes ∧
+        ∀ c ∈ t.chans, (fc = none ∨ fc = some c.cid) → c ∈ x.chans := by
+    cases fc with
+    | none => exact ⟨t, h1, rfl, rfl, rfl, fun c hc _ => hc⟩
+    | some c =>
+      obtain ⟨x, hx, hxc⟩ := hfc c rfl
+      have hany : t.chans.any (fun x => x.cid == c) = true := List.any_eq_true.2 ⟨x, hx, by simp [hxc]⟩
+      refine ⟨{ t with chans := t.chans.filter (fun x => x.cid == c) }, ?_, rfl, rfl, rfl, ?_⟩
+      · simp only [List.mem_filterMap]
+        exact ⟨t, h1, by simp [hany]⟩
+      · intro c0 hc0 hm
+        rcases hm with hm | hm
+        · cases hm
+        · have : c = c0.cid := Option.some.inj hm
+          exact List.mem_filter.2 ⟨hc0, by simp [this]⟩
+  obtain ⟨x, hx, e1, e2, e3, e4⟩ := h2
+  cases incl with
+  | true =>
+    simp only [↓reduceIte]
+    exact ⟨x, hx, e1, e2, e3, fun c hc hm => ⟨c, e4 c hc hm, rfl, rfl, rfl, rfl⟩⟩
+  | false =>
+    simp only [Bool.false_eq_true, ↓reduceIte]
+    refine ⟨stripClients x, List.mem_map.2 ⟨x, hx, rfl⟩, e1, e2, e3, ?_⟩
+    intro c hc hm
+    exact ⟨{ c with clients := [] }, by simp only [stripClients, List.mem_map]; exact ⟨c, e4 c hc hm, rfl⟩, rfl, rfl, rfl, rfl⟩
 
 end Nsq.Proofs.ChanStats
